@@ -924,6 +924,13 @@ func (r *seqRun) injectTCP(nic int, t tuple, v verdict, want *msock, desc string
 		p := rawpeer.NewPeerFor(r.w.taps[nic], isV6(t.Dst), t.Dst, t.Src, t.DPort, t.SPort, iss)
 		p.Send(codec.TCPSeg{Seq: iss, Ack: ack, Flags: fl, Wnd: 0})
 		evid.Label("inject:tcp-stray-reset")
+		if kind == xSynAck {
+			// a listener consumes the segment on its own goroutine; until then the
+			// queued segment's route references the local address (the mechanism of
+			// F22): give it a moment and treat the address as possibly referenced
+			time.Sleep(3 * time.Millisecond)
+			r.pinned[t.Dst] = true
+		}
 		if f, any := r.replyOn(nic, from, 0, t, func(k *codec.Packet) bool { return true }); any {
 			return fail("reset-answered", "step %d: %s: a reset segment was answered with %s\n%s", r.step, desc, f.Pkt, r.world())
 		}
